@@ -206,4 +206,209 @@ Section LdaProofs.
     - intros i Hi Hm. destruct (Hmk i Hi Hm) as [Hdg _]. unfold B in Hdg. rewrite bentry_bmat in Hdg.
       apply negb_true_iff in Hdg. apply is0_false in Hdg. exact Hdg.
   Qed.
+
+  (* ================================================================ structure of A on decoupled dofs *)
+  Lemma nth_vzero n i : nth i (vzero n) 0 = 0.
+  Proof. unfold vzero. revert i; induction n; intros [|i]; simpl; auto. Qed.
+  Lemma nth_diag n A i : wfm n A -> i < n -> nth i (diag A) 0 = entry A i i.
+  Proof.
+    intros [Hl _] Hi. unfold diag. rewrite Hl.
+    rewrite (nth_indep _ 0 ((fun i => entry A i i) 0%nat)) by (rewrite map_length, seq_length; auto).
+    rewrite (map_nth (fun i => entry A i i) (seq 0 n) 0%nat i), seq_nth by auto. reflexivity.
+  Qed.
+  Lemma diag_length A : length (diag A) = length A.
+  Proof. unfold diag. now rewrite map_length, seq_length. Qed.
+  Lemma diag_div_length m r D n : length m = n -> length r = n -> length D = n -> length (diag_div m r D) = n.
+  Proof. intros E1 E2 E3. unfold diag_div. rewrite map2_length; auto. rewrite combine_length. lia. Qed.
+  Lemma nth_diag_div m r D n i : length m = n -> length r = n -> length D = n -> i < n ->
+    nth i (diag_div m r D) 0 = if nth i m false then nth i r 0 / nth i D 0 else 0.
+  Proof.
+    intros E1 E2 E3 Hi. unfold diag_div.
+    rewrite (nth_map2 _ m (combine r D) i false (0, 0) 0) by (rewrite ?combine_length; lia).
+    rewrite combine_nth by lia. reflexivity.
+  Qed.
+
+  Lemma mv_pn_comm n A m v : wfm n A -> Decoupled n A m -> length v = n -> mv A (pn m v) = pn m (mv A v).
+  Proof.
+    intros W [Hl [Hoff Hd]] Hv. pose proof W as [HlA _].
+    apply (nth_ext_len _ _ 0).
+    - rewrite mv_length, pn_length; rewrite ?mv_length; lia.
+    - rewrite mv_length, HlA. intros i Hi.
+      rewrite nth_mv by lia. rewrite nth_pn by (rewrite mv_length; lia). rewrite nth_mv by lia.
+      pose proof (wfm_row n A i W Hi) as Hrow.
+      destruct (nth i m false) eqn:Emi.
+      + rewrite (vdot_ext0 _ (pn m v) (vzero n)).
+        * apply vdot_zero_r.
+        * rewrite pn_length, vzero_length; lia.
+        * rewrite pn_length by lia. intros j Hj. destruct (Nat.eq_dec j i) as [-> | Hne].
+          -- right. rewrite nth_pn, Emi, nth_vzero by lia. reflexivity.
+          -- left. apply (Hoff i j); auto; lia.
+      + apply vdot_ext0.
+        * rewrite pn_length; lia.
+        * rewrite pn_length by lia. intros j Hj. rewrite nth_pn by lia.
+          destruct (nth j m false) eqn:Emj; auto. left. apply (Hoff i j); auto; try lia. congruence.
+  Qed.
+
+  Lemma mv_diag_div n A m r : wfm n A -> Decoupled n A m -> length r = n ->
+    mv A (diag_div m r (diag A)) = pd m r.
+  Proof.
+    intros W [Hl [Hoff Hd]] Hr. pose proof W as [HlA _].
+    assert (LD : length (diag A) = n) by (rewrite diag_length; auto).
+    assert (Ldd : length (diag_div m r (diag A)) = n) by (apply diag_div_length; auto).
+    apply (nth_ext_len _ _ 0).
+    - rewrite mv_length, pd_length; lia.
+    - rewrite mv_length, HlA. intros i Hi. rewrite nth_mv by lia. rewrite nth_pd by lia.
+      pose proof (wfm_row n A i W Hi) as Hrow.
+      destruct (nth i m false) eqn:Emi.
+      + rewrite (vdot_single _ _ i) by (try lia; intros j Hj Hne; apply (Hoff i j); auto; lia).
+        rewrite (nth_diag_div m r (diag A) n) by auto. rewrite Emi, (nth_diag n) by auto.
+        fold (entry A i i). field. apply Hd; auto.
+      + rewrite (vdot_ext0 _ _ (vzero n)).
+        * apply vdot_zero_r.
+        * rewrite vzero_length; lia.
+        * rewrite Ldd. intros j Hj. rewrite (nth_diag_div m r (diag A) n), nth_vzero by auto.
+          destruct (nth j m false) eqn:Emj; auto. left. apply (Hoff i j); auto; try lia. congruence.
+  Qed.
+
+  (* ================================================================ the database invariant *)
+  Definition pair_ok (n : nat) A m (p : pair) : Prop :=
+    length (p_x p) = n /\ length (p_b p) = n /\ mv A (p_x p) = p_b p /\ pn m (p_x p) = p_x p /\ nrm2 (p_b p) <> 0.
+  (* later stored right-hand sides are orthogonal to earlier ones *)
+  Fixpoint orth (bs : list (vec F)) : Prop :=
+    match bs with
+    | [] => True
+    | b0 :: t => (forall d, In d t -> hdot d b0 = 0) /\ orth t
+    end.
+  Definition db_inv (n : nat) A m (db : list pair) : Prop :=
+    Forall (pair_ok n A m) db /\ orth (map p_b db).
+
+  Lemma pair_ok_pn_b n A m p : wfm n A -> Decoupled n A m -> pair_ok n A m p -> pn m (p_b p) = p_b p.
+  Proof. intros W Dc (Hx & Hb & HA & Hp & _). rewrite <- HA, <- (mv_pn_comm n) by auto. now rewrite Hp. Qed.
+
+  Lemma orth_app l1 l2 : orth (l1 ++ l2) <->
+    orth l1 /\ orth l2 /\ (forall a c, In a l1 -> In c l2 -> hdot c a = 0).
+  Proof.
+    induction l1 as [|b0 l1 IH]; simpl.
+    - tauto.
+    - rewrite IH. split.
+      + intros [H1 [H2 [H3 H4]]]. repeat split; auto.
+        * intros d Hd. apply H1. apply in_or_app; auto.
+        * intros a c [<- | Ha] Hc; auto. apply H1. apply in_or_app; auto.
+      + intros [[H1 H2] [H3 H4]]. repeat split; auto.
+        intros d Hd. apply in_app_or in Hd as [Hd | Hd]; auto.
+  Qed.
+
+  (* ---------------------------------------------------------------- modified Gram-Schmidt on one vector *)
+  Definition mgs_step v b := vsub v (vscale (hdot v b / nrm2 b) b).
+  Definition mgs (bs : list (vec F)) v := fold_left mgs_step bs v.
+  Definition nzlen (n : nat) b := length b = n /\ nrm2 b <> 0.
+
+  Lemma mgs_step_length n v b : length v = n -> length b = n -> length (mgs_step v b) = n.
+  Proof. intros E1 E2. unfold mgs_step. rewrite vsub_length; rewrite ?vscale_length; lia. Qed.
+  Lemma mgs_length n bs v : Forall (nzlen n) bs -> length v = n -> length (mgs bs v) = n.
+  Proof. unfold mgs. revert v; induction bs as [|b0 bs IH]; intros v Hb Hv; simpl; auto.
+    apply Forall_cons_iff in Hb as [[Hl _] Hb']. apply IH; auto. apply mgs_step_length; auto. Qed.
+  Lemma hdot_mgs_step n v b d : length v = n -> length b = n ->
+    hdot (mgs_step v b) d = hdot v d - (hdot v b / nrm2 b) * hdot b d.
+  Proof. intros E1 E2. unfold mgs_step. rewrite hdot_vsub_l, hdot_vscale_l; auto. rewrite vscale_length; lia. Qed.
+
+  Lemma mgs_orth n rest : forall done_ v, orth (done_ ++ rest) -> Forall (nzlen n) (done_ ++ rest) -> length v = n ->
+    (forall d, In d done_ -> hdot v d = 0) ->
+    forall d, In d (done_ ++ rest) -> hdot (mgs rest v) d = 0.
+  Proof.
+    unfold mgs. induction rest as [|b0 rest IH]; intros done_ v Ho Hn Hv Hd d Hin; simpl.
+    - rewrite app_nil_r in Hin. auto.
+    - assert (Hb0 : nzlen n b0) by (rewrite Forall_forall in Hn; apply Hn, in_or_app; simpl; auto).
+      destruct Hb0 as [Lb0 Nb0].
+      replace (done_ ++ b0 :: rest) with ((done_ ++ [b0]) ++ rest) in * by (rewrite <- app_assoc; reflexivity).
+      apply (IH (done_ ++ [b0])); auto.
+      + apply (mgs_step_length n); auto.
+      + intros e He. rewrite (hdot_mgs_step n) by auto. apply in_app_or in He as [He | [<- | []]].
+        * rewrite (Hd e He).
+          assert (hdot b0 e = 0) as ->.
+          { apply orth_app in Ho as [Ho _]. apply orth_app in Ho as [_ [_ Ho]]. apply Ho; simpl; auto. }
+          ring.
+        * rewrite <- nrm2_hdot. field. exact Nb0.
+  Qed.
+
+  Lemma mgs_step_vadd n u v b : length u = n -> length v = n -> length b = n ->
+    mgs_step (vadd u v) b = vadd (mgs_step u b) (mgs_step v b).
+  Proof.
+    intros E1 E2 E3. unfold mgs_step. rewrite hdot_vadd_l by lia.
+    replace ((hdot u b + hdot v b) / nrm2 b) with (hdot u b / nrm2 b + hdot v b / nrm2 b).
+    2:{ unfold fdiv. destruct (@Fth F I L) as [_ _ Hdiv _]. rewrite !Hdiv. ring. }
+    remember (hdot u b / nrm2 b) as cu. remember (hdot v b / nrm2 b) as cv. clear Heqcu Heqcv.
+    revert v b E1 E2 E3. revert n. induction u as [|x u IH]; intros n [|y v] [|z b] E1 E2 E3; simpl in *; subst; try discriminate; auto.
+    unfold vadd, vsub, vscale in *. simpl. f_equal. ring. apply (IH (length u)); auto; lia.
+  Qed.
+  Lemma mgs_step_vscale c v b : mgs_step (vscale c v) b = vscale c (mgs_step v b).
+  Proof.
+    unfold mgs_step. rewrite hdot_vscale_l, vscale_vsub, vscale_vscale. f_equal. f_equal.
+    unfold fdiv. destruct (@Fth F I L) as [_ _ Hdiv _]. rewrite !Hdiv. ring.
+  Qed.
+  Lemma mgs_step_zero n b : length b = n -> mgs_step (vzero n) b = vzero n.
+  Proof.
+    intros E. unfold mgs_step. rewrite hdot_zero_l.
+    replace (0 / nrm2 b) with 0 by (destruct (@Fth F I L) as [_ _ Hdiv _]; rewrite Hdiv; ring).
+    rewrite vscale_0, E. apply vsub_zero_r. apply vzero_length.
+  Qed.
+  Lemma mgs_vadd n bs : forall u v, Forall (nzlen n) bs -> length u = n -> length v = n ->
+    mgs bs (vadd u v) = vadd (mgs bs u) (mgs bs v).
+  Proof.
+    unfold mgs. induction bs as [|b0 bs IH]; intros u v Hb Hu Hv; simpl; auto.
+    apply Forall_cons_iff in Hb as [[Lb _] Hb']. rewrite (mgs_step_vadd n) by auto.
+    apply IH; auto; apply (mgs_step_length n); auto.
+  Qed.
+  Lemma mgs_vscale bs : forall c v, mgs bs (vscale c v) = vscale c (mgs bs v).
+  Proof. unfold mgs. induction bs as [|b0 bs IH]; intros c v; simpl; auto. rewrite mgs_step_vscale. apply IH. Qed.
+  Lemma mgs_zero n bs : Forall (nzlen n) bs -> mgs bs (vzero n) = vzero n.
+  Proof. unfold mgs. induction bs as [|b0 bs IH]; intros Hb; simpl; auto.
+    apply Forall_cons_iff in Hb as [[Lb _] Hb']. rewrite mgs_step_zero by auto. apply IH; auto. Qed.
+
+  (* a stored vector is annihilated *)
+  Lemma mgs_member n bs b : orth bs -> Forall (nzlen n) bs -> In b bs -> mgs bs b = vzero n.
+  Proof.
+    intros Ho Hn Hin. apply in_split in Hin as [l1 [l2 ->]].
+    unfold mgs. rewrite fold_left_app. simpl.
+    assert (Hb : nzlen n b) by (rewrite Forall_forall in Hn; apply Hn, in_or_app; simpl; auto).
+    destruct Hb as [Lb Nb].
+    assert (E1 : fold_left mgs_step l1 b = b).
+    { apply orth_app in Ho as [_ [_ Ho]].
+      assert (Hl1 : forall d, In d l1 -> hdot b d = 0 /\ length d = n).
+      { intros d Hd. split. apply Ho; simpl; auto. rewrite Forall_forall in Hn. apply Hn. apply in_or_app; auto. }
+      clear Ho Hn. induction l1 as [|d l1 IH]; simpl; auto.
+      assert (mgs_step b d = b) as ->.
+      { unfold mgs_step. destruct (Hl1 d (or_introl eq_refl)) as [-> Ld].
+        replace (0 / nrm2 d) with 0 by (destruct (@Fth F I L) as [_ _ Hdiv _]; rewrite Hdiv; ring).
+        rewrite vscale_0, Ld. apply vsub_zero_r; auto. }
+      apply IH. intros e He. apply Hl1. simpl; auto. }
+    rewrite E1.
+    assert (mgs_step b b = vzero n) as ->.
+    { unfold mgs_step. rewrite <- nrm2_hdot.
+      replace (nrm2 b / nrm2 b) with f1 by (field; auto).
+      rewrite vscale_1, vsub_self, Lb. reflexivity. }
+    apply (mgs_zero n). apply Forall_app in Hn as [_ Hn]. inversion Hn; auto.
+  Qed.
+
+  (* span of a list of vectors *)
+  Inductive span (n : nat) (vs : list (vec F)) : vec F -> Prop :=
+  | span_zero : span n vs (vzero n)
+  | span_add c v u : In v vs -> span n vs u -> span n vs (vadd (vscale c v) u).
+
+  Lemma span_length n vs v : Forall (fun w => length w = n) vs -> span n vs v -> length v = n.
+  Proof.
+    intros Hl. induction 1. - apply vzero_length.
+    - rewrite vadd_length; rewrite vscale_length; rewrite Forall_forall in Hl; rewrite (Hl v); auto.
+  Qed.
+  Lemma mgs_span n bs v : orth bs -> Forall (nzlen n) bs -> span n bs v -> mgs bs v = vzero n.
+  Proof.
+    intros Ho Hn Hs.
+    assert (Hl : Forall (fun w => length w = n) bs) by (eapply Forall_impl; [| exact Hn]; intros a [Ha _]; exact Ha).
+    induction Hs as [| c v u Hin Hs IH].
+    - apply mgs_zero; auto.
+    - rewrite (mgs_vadd n); auto.
+      + rewrite mgs_vscale, (mgs_member n), IH, vscale_zero by auto. apply vadd_zero_r, vzero_length.
+      + rewrite vscale_length. rewrite Forall_forall in Hl. auto.
+      + eapply span_length; eauto.
+  Qed.
 End LdaProofs.
